@@ -497,6 +497,36 @@ pub mod atomic {
     }
 }
 
+pub mod cell {
+    //! Replacement for `std::cell::UnsafeCell`: obtaining the raw pointer is reported as an
+    //! access event, so the event stays attached to the access wherever the code moves it.
+    #[repr(transparent)]
+    pub struct UnsafeCell<T>(std::cell::UnsafeCell<T>);
+
+    impl<T> UnsafeCell<T> {
+        pub const fn new(v: T) -> Self {
+            UnsafeCell(std::cell::UnsafeCell::new(v))
+        }
+        pub fn get(&self) -> *mut T {
+            let p = self.0.get();
+            super::event("cell_access", p as usize as u64, 0);
+            p
+        }
+        pub fn get_mut(&mut self) -> &mut T {
+            self.0.get_mut()
+        }
+        pub fn into_inner(self) -> T {
+            self.0.into_inner()
+        }
+    }
+
+    impl<T: Default> Default for UnsafeCell<T> {
+        fn default() -> Self {
+            UnsafeCell::new(T::default())
+        }
+    }
+}
+
 pub mod sync {
     //! Replacement for `std::sync::{Mutex, MutexGuard}`; poisoning is the real `std` poisoning.
     use super::hooks;
